@@ -732,39 +732,63 @@ Proof.
 Qed.
 
 (* horizon weights only matter up to a common positive factor *)
+Lemma map_eql {A} (f g : A -> Q) l : (forall a, f a == g a) -> eql (map f l) (map g l).
+Proof. intro H. induction l; simpl; constructor; [apply H | assumption]. Qed.
+Lemma ratio_eql n n' d d' : eql n n' -> eql d d' -> eql (ratio n d) (ratio n' d').
+Proof.
+  intros Hn; revert d d'. unfold ratio, map2.
+  induction Hn as [|x y l l' Hx Hn IH]; intros d d' Hd; [constructor|].
+  inversion Hd as [|dx dy dl dl' Hdx Hd']; subst; simpl; constructor; [|apply IH; assumption].
+  rewrite Hx. rewrite (qmax_compat dx dy EPS EPS Hdx (Qeq_refl EPS)). reflexivity.
+Qed.
 Theorem horizon_weights_scale_free m mo w cols c : 0 < c -> fam_agg (fam m) <> GMean ->
   eql (pre_values (mkfcase m mo (Some (map (Qmult c) w)) cols))
       (pre_values (mkfcase m mo (Some w) cols)).
 Proof.
   intros Hc Hg. unfold pre_values. simpl. destruct (fam m) as [b k a|k a sp|k a]; simpl in Hg.
-  - induction cols as [|cl cols IH]; simpl; constructor; [|assumption].
-    unfold col_agg. destruct a; try congruence; apply agg_weights_scale_free; assumption.
-  - assert (eql (map (fun cl => agg a (Some (map (Qmult c) w)) (pt BPlain (P0 k) cl)) cols)
-                (map (fun cl => agg a (Some w) (pt BPlain (P0 k) cl)) cols)) as E.
-    { induction cols as [|cl cols IH]; simpl; constructor; [|assumption].
-      apply agg_weights_scale_free; assumption. }
-    apply mo_avg_eql with (mo := mo) in E. revert E.
-    generalize (mo_avg mo (map (fun cl => agg a (Some (map (Qmult c) w)) (pt BPlain (P0 k) cl)) cols)).
-    generalize (mo_avg mo (map (fun cl => agg a (Some w) (pt BPlain (P0 k) cl)) cols)).
-    generalize (mo_avg mo (map (fun cl => agg a None (naive_errs k sp (c_train cl))) cols)).
-    intros den n1 n2 E. unfold ratio, map2. revert den.
-    induction E as [|x y l l' Hx E IH]; intros [|d den]; simpl; constructor; [|apply IH].
-    rewrite Hx. reflexivity.
-  - set (f1 := fun cl => agg a (Some (map (Qmult c) w)) (pt BPlain (P0 k) cl)).
-    set (f2 := fun cl => agg a (Some w) (pt BPlain (P0 k) cl)).
-    set (g1 := fun cl => agg a (Some (map (Qmult c) w))
-                          (pt BPlain (P0 k) (mkcol (c_true cl) (c_bench cl) [] []))).
-    set (g2 := fun cl => agg a (Some w) (pt BPlain (P0 k) (mkcol (c_true cl) (c_bench cl) [] []))).
-    assert (eql (mo_avg mo (map f1 cols)) (mo_avg mo (map f2 cols))) as E1.
-    { apply mo_avg_eql. induction cols as [|cl cols IH]; simpl; constructor; [|assumption].
-      apply agg_weights_scale_free; assumption. }
-    assert (eql (mo_avg mo (map g1 cols)) (mo_avg mo (map g2 cols))) as E2.
-    { apply mo_avg_eql. induction cols as [|cl cols IH]; simpl; constructor; [|assumption].
-      apply agg_weights_scale_free; assumption. }
-    revert E1 E2. generalize (mo_avg mo (map f1 cols)) (mo_avg mo (map f2 cols))
-      (mo_avg mo (map g1 cols)) (mo_avg mo (map g2 cols)).
-    intros n1 n2 d1 d2 E1. unfold ratio, map2. revert d1 d2.
-    induction E1 as [|x y l l' Hx E1 IH]; intros d1 d2 E2; inversion E2; subst; simpl;
-      constructor; [|apply IH; assumption].
-    rewrite Hx. rewrite (qmax_compat x0 y0 EPS EPS H (Qeq_refl EPS)). reflexivity.
+  - apply map_eql. intro cl. unfold col_agg.
+    destruct a; try congruence; apply agg_weights_scale_free; assumption.
+  - apply ratio_eql; [|apply eql_refl]. apply mo_avg_eql. apply map_eql. intro cl.
+    apply agg_weights_scale_free; assumption.
+  - apply ratio_eql; apply mo_avg_eql; apply map_eql; intro cl;
+      apply agg_weights_scale_free; assumption.
+Qed.
+
+(* ---------------------------------------------------------------- a concrete instance *)
+
+Fixpoint roots_okb (deg : Z) (r pre : list Q) : bool :=
+  match r, pre with
+  | [], [] => true
+  | s :: r', x :: p' => Qle_bool 0 s && Qeq_bool (s ^ deg) x && roots_okb deg r' p'
+  | _, _ => false
+  end.
+Lemma roots_okb_sound deg r pre : roots_okb deg r pre = true -> roots_of deg r pre.
+Proof.
+  revert pre; induction r as [|s r IH]; intros [|x pre] H; simpl in H; try discriminate.
+  - constructor.
+  - apply andb_true_iff in H. destruct H as [H H3]. apply andb_true_iff in H. destruct H as [H1 H2].
+    constructor; [|apply IH; assumption]. split; [apply Qle_bool_iff | apply Qeq_bool_iff]; assumption.
+Qed.
+Lemma Forall_ge_eps l : forallb (Qle_bool EPS) l = true -> Forall (fun d => EPS <= d) l.
+Proof.
+  intro H. apply Forall_forall. intros x Hx. rewrite forallb_forall in H.
+  apply Qle_bool_iff. apply H. exact Hx.
+Qed.
+
+Lemma nonvacuous_example :
+  let cols := [mkcol [3; 1] [1; 1] [] [0; 2; 4]; mkcol [0; 2] [2; 2] [] [5; 2; 5]] in
+  let m := mkmetric (FScaled PSq Mean 1) true in
+  wf (mkfcase m Raw (Some [1; 3]) cols) /\
+  Forall (fun d => EPS <= d) (scaled_den PSq Mean 1 Raw cols) /\
+  Forall (fun d => EPS <= d) (scaled_den PSq Mean 1 Raw (map (scale_col 3) cols)) /\
+  is_value (mkfcase m Raw (Some [1; 3]) cols) [1 # 2; 1 # 3] /\
+  is_value (mkfcase m Raw (Some [1; 3]) (map (scale_col 3) cols)) [1 # 2; 1 # 3].
+Proof.
+  cbv zeta. split.
+  { split; simpl; [|exact I]. repeat constructor; unfold nonneg; lra. }
+  split; [apply Forall_ge_eps; vm_compute; reflexivity|].
+  split; [apply Forall_ge_eps; vm_compute; reflexivity|].
+  split.
+  - exists [1 # 2; 1 # 3]. split; [apply roots_okb_sound; vm_compute; reflexivity | apply eql_refl].
+  - exists [1 # 2; 1 # 3]. split; [apply roots_okb_sound; vm_compute; reflexivity | apply eql_refl].
 Qed.
